@@ -45,8 +45,8 @@ ASSUMPTIONS = [
     "stopping inequalities are the ones documented in the two _solve methods, recomputed from convergence_history and the options",
 ]
 FLOORS = {
-    "quick": {"mass_balance": 1500, "distance_is_cost_of_flux": 1500, "status_honest": 400, "fault:not_converged": 2000, "fault:last_valid_iterate": 2000, "fault:depth:backend": 1000, "fault:depth:after_update": 1000, "fault:depth:backend_returns_nan": 1000, "second_pair_on_same_object": 150, "monitoring_active": 1500},
-    "thorough": {"mass_balance": 12000, "distance_is_cost_of_flux": 12000, "status_honest": 3800, "fault:not_converged": 16000, "fault:last_valid_iterate": 16000, "fault:depth:backend": 8000, "fault:depth:after_update": 8000, "fault:depth:backend_returns_nan": 8000, "second_pair_on_same_object": 1500, "monitoring_active": 12000},
+    "quick": {"mass_balance": 1500, "distance_is_cost_of_flux": 1500, "status_honest": 400, "fault:not_converged": 2000, "fault:last_valid_iterate": 2000, "fault:depth:backend": 1000, "fault:depth:after_update": 1000, "fault:depth:backend_returns_nan": 1000, "second_pair_on_same_object": 150, "lab_scale_cg_relative_tolerance_only": 10, "monitoring_active": 1500},
+    "thorough": {"mass_balance": 12000, "distance_is_cost_of_flux": 12000, "status_honest": 3800, "fault:not_converged": 16000, "fault:last_valid_iterate": 16000, "fault:depth:backend": 8000, "fault:depth:after_update": 8000, "fault:depth:backend_returns_nan": 8000, "second_pair_on_same_object": 1500, "lab_scale_cg_relative_tolerance_only": 100, "monitoring_active": 12000},
 }
 SHARD_TIMEOUT = {"quick": 1500, "thorough": 6000}
 
@@ -117,13 +117,22 @@ def run_shard(spec, R):
         shape = tuple(c["grid"])
         dim = len(shape)
         h = [float(10 ** rng.uniform(-0.7, 0.7)) for _ in shape]
+        formulation, backend = FORMS[c["form"]]
+        lab_scale_cg = backend == "cg" and formulation != "flux_reduced" and c["id"] % 3 == 0
+        if lab_scale_cg:
+            # millimetre voxels (right-hand sides of tiny norm) with only a relative tolerance requested: cg's
+            # documented absolute tolerance default is 0, so the relative one decides
+            h = [x * 1e-3 for x in h]
         a, b = wass.mass_pair(rng, shape, c["mass"])
         m1, m2 = wass.images(darsia, a, b, h)
         M = GridModel(shape, h)
         formulation, backend = FORMS[c["form"]]
         extra = {}
+        if lab_scale_cg:
+            extra = {"linear_solver_options": {"rtol": 1e-12, "maxiter": 5000}}
+            R.count("lab_scale_cg_relative_tolerance_only")
         if c["tight"]:
-            extra = {"tol_residual": 1e-8, "tol_increment": 1e-6, "tol_distance": 1e-8}
+            extra = {**extra, "tol_residual": 1e-8, "tol_increment": 1e-6, "tol_distance": 1e-8}
         if c["method"].startswith("bregman") and c["id"] % 8 == 4:
             extra = {**extra, "L": [2.0, 0.5][(c["id"] // 8) % 2]}  # Bregman penalty other than the default 1
         num_iter = 12 if c["tight"] else 6
@@ -194,6 +203,17 @@ def run_shard(spec, R):
             tdu = np.asarray(w1.transport_density(flux, weighted=False, flatten=True), float)
             tdu_m = TR.transport_density(M, flux, c["l1"], 1.0)
             sub["unweighted_transport_density"] = tdu.shape == tdu_m.shape and float(np.max(np.abs(tdu - tdu_m))) <= 1e-10 * max(float(np.max(np.abs(tdu_m))), 1e-300)
+            # post-processing with another discretisation of the cost on the same object: the density follows the
+            # object's current l1_mode
+            other_l1 = [m_ for m_ in ("RAVIART_THOMAS", "CONSTANT_SUBCELL_PROJECTION", "CONSTANT_CELL_PROJECTION") if m_ != c["l1"]][c["id"] % 2]
+            keep_mode = w1.l1_mode
+            try:
+                w1.l1_mode = getattr(darsia.L1Mode, other_l1)
+                tdo = np.asarray(w1.transport_density(flux, weighted=False, flatten=True), float)
+            finally:
+                w1.l1_mode = keep_mode
+            tdo_m = TR.transport_density(M, flux, other_l1, 1.0)
+            sub["density_follows_current_l1_mode"] = tdo.shape == tdo_m.shape and float(np.max(np.abs(tdo - tdo_m))) <= 1e-10 * max(float(np.max(np.abs(tdo_m))), 1e-300)
             # what was handed out stays what it was when the object evaluates something else afterwards
             kept = {k: np.array(info_out[k], dtype=float, copy=True) for k in ("transport_density", "flux", "pressure")}
             probe_flux = 2.0 * flux + 1.0
